@@ -913,9 +913,6 @@ func (d *Data) sendJSONValuesInRange(w http.ResponseWriter, r *http.Request, ctx
 		tw = tar.NewWriter(w)
 	case jsonOut:
 		w.Header().Set("Content-type", "application/json")
-		if _, err = w.Write([]byte("{")); err != nil {
-			return
-		}
 	default:
 	}
 
@@ -961,10 +958,14 @@ func (d *Data) sendJSONValuesInRange(w http.ResponseWriter, r *http.Request, ctx
 				return err
 			}
 		case jsonOut:
+			// The opening brace is held back until the first value so that an error on the
+			// first key can still be answered with an error status.
+			sep := "{"
 			if wroteVal {
-				if _, err = w.Write([]byte(",")); err != nil {
-					return err
-				}
+				sep = ","
+			}
+			if _, err = w.Write([]byte(sep)); err != nil {
+				return err
 			}
 			if len(val) == 0 {
 				val = []byte("{}")
@@ -989,11 +990,20 @@ func (d *Data) sendJSONValuesInRange(w http.ResponseWriter, r *http.Request, ctx
 
 		return nil
 	})
+	if err != nil {
+		// A failed range read (e.g. an unresolved merge conflict on one key) must not be
+		// presented as a complete, well-formed listing.
+		return
+	}
 	switch {
 	case tarOut:
 		tw.Close()
 	case jsonOut:
-		if _, err = w.Write([]byte("}")); err != nil {
+		closing := "}"
+		if !wroteVal {
+			closing = "{}"
+		}
+		if _, err = w.Write([]byte(closing)); err != nil {
 			return
 		}
 	default:
